@@ -39,7 +39,7 @@ TReset ==
     /\ IsEvent("reset")
     /\ nIssued' = 0
     /\ cred' = [c \in Creds |-> IF c = "fx" THEN [iss |-> Outsider, kind |-> "foreign", list |-> <<ForeignTarget, 1>>, slot |-> 0] ELSE NoCred]
-    /\ pages' = [i \in Issuers |-> <<>>] /\ revoked' = {}
+    /\ pages' = [i \in AllIssuers |-> <<>>] /\ revoked' = {}
     /\ known' = [n \in Nodes |-> {}] /\ cache' = [n \in Nodes |-> [ls \in Lists |-> NoCopy]]
     /\ ticks' = 0 /\ forges' = 0 /\ must' = [n \in Nodes |-> {}]
     /\ spc' = [s \in Servers |-> "idle"] /\ ssnap' = [s \in Servers |-> [list |-> NoList, bits |-> {}]]
@@ -48,7 +48,9 @@ TReset ==
 
 TIssue ==
     /\ IsEvent("issue") /\ Ev.c = CredName(nIssued + 1)
-    /\ IF Ev.kind = "sl" THEN IssueObs(Ev.i, "sl", Ev.page, Ev.slot) ELSE IssueObs(Ev.i, "net", 1, 0)
+    /\ CASE Ev.kind = "sl" -> IssueObs(Ev.i, "sl", Ev.page, Ev.slot)
+         [] Ev.kind = "ext" -> IssueExt(Ev.i, Ev.slot)
+         [] OTHER -> IssueObs(Ev.i, "net", 1, 0)
     /\ tV' = NoV /\ NoServe
 TRevokeStatus ==
     /\ IsEvent("revoke.status") /\ RevokeStatus(Ev.c)
